@@ -166,6 +166,47 @@ func objVal(x interface{}) string {
 
 const enumSlack = 8
 
+// drive runs an enumerator in one of three ways (`*mode` mod 3):
+//
+//	0  while HasMoreElements() { Next }
+//	1  exactly `size` calls of Next with NO HasMoreElements in between (IntSet.ToString, KeyArray, ValueArray and callers do that)
+//	2  mixed: HasMoreElements called 0–3 times before each Next, `size` elements
+//
+// After 1 and 2 whatever HasMoreElements still announces is drained, so that it shows up as a difference.
+func drive(mode *int, size int, hasMore func() bool, next func()) {
+	m := 0
+	if mode != nil {
+		m = *mode % 3
+	}
+	switch m {
+	case 0:
+		for i := 0; hasMore() && i < size+enumSlack; i++ {
+			next()
+		}
+		return
+	case 1:
+		for i := 0; i < size; i++ {
+			next()
+		}
+	case 2:
+		for i := 0; i < size; i++ {
+			stop := false
+			for k := (i*7 + 3) % 4; k > 0; k-- {
+				if !hasMore() {
+					stop = true
+				}
+			}
+			if stop {
+				return
+			}
+			next()
+		}
+	}
+	for i := 0; hasMore() && i < enumSlack; i++ {
+		next()
+	}
+}
+
 // ---------------------------------------------------------------- the four types
 
 func newIntIntMap(c ctor) *inst {
@@ -179,6 +220,7 @@ func newIntIntMap(c ctor) *inst {
 }
 
 func wrapIntIntMap(m *hmap.IntIntMap) *inst {
+	dm := new(int) // how the enumerators of this instance are driven (rotated by every dump / EO)
 	var it *inst
 	it = &inst{
 		exec: func(o op) string {
@@ -220,37 +262,51 @@ func wrapIntIntMap(m *hmap.IntIntMap) *inst {
 			case "TO":
 				m.ToObject(gio.NewDataInputX(encodePairs(o.pairs)))
 				return "u"
+			case "TS": // ToString() against the entries' own ToString(), enumerated the HasMoreElements way
+				var parts []string
+				en := m.Entries()
+				for i := 0; en.HasMoreElements() && i < m.Size()+enumSlack; i++ {
+					if e, ok := en.NextElement().(*hmap.IntIntEntry); ok {
+						parts = append(parts, e.ToString())
+					}
+				}
+				want := "{" + strings.Join(parts, ", ") + "}"
+				if got := m.ToString(); got != want {
+					return strconv.Itoa(m.Size()) + "!ToString=" + got + " want " + want
+				}
+				return strconv.Itoa(m.Size())
 			}
 			return "?unsupported"
 		},
 		dump: func(skip map[string]bool) dump {
+			*dm++
 			d := dump{has: map[string]bool{}}
 			n := m.Size()
 			d.size = n
 			if !skip["Entries"] {
 				d.has["Entries"] = true
 				en := m.Entries()
-				for i := 0; en.HasMoreElements() && i < n+enumSlack; i++ {
+				drive(dm, n, en.HasMoreElements, func() {
 					if e, ok := en.NextElement().(*hmap.IntIntEntry); ok {
 						d.entries = append(d.entries, pairS{i32Tok(e.GetKey()), i32Tok(e.GetValue())})
 					} else {
 						d.entries = append(d.entries, pairS{"?", "?"})
 					}
-				}
+				})
 			}
 			if !skip["Keys"] {
 				d.has["Keys"] = true
 				en := m.Keys()
-				for i := 0; en.HasMoreElements() && i < n+enumSlack; i++ {
+				drive(dm, n, en.HasMoreElements, func() {
 					d.keys = append(d.keys, i32Tok(en.NextInt()))
-				}
+				})
 			}
 			if !skip["Values"] {
 				d.has["Values"] = true
 				en := m.Values()
-				for i := 0; en.HasMoreElements() && i < n+enumSlack; i++ {
+				drive(dm, n, en.HasMoreElements, func() {
 					d.values = append(d.values, i32Tok(en.NextInt()))
-				}
+				})
 			}
 			if !skip["KeyArray"] {
 				d.has["KeyArray"] = true
@@ -315,7 +371,7 @@ func wrapIntIntMap(m *hmap.IntIntMap) *inst {
 	}
 	var enE hmap.Enumeration
 	var enK hmap.IntEnumer
-	it.openEnum = func() { enE, enK = m.Entries(), m.Keys() }
+	it.openEnum = func() { *dm++; enE, enK = m.Entries(), m.Keys() }
 	it.drainEnum = func() string {
 		if enE == nil {
 			it.openEnum()
@@ -323,15 +379,15 @@ func wrapIntIntMap(m *hmap.IntIntMap) *inst {
 		n := m.Size()
 		var ps []pairS
 		var ks, ks2 []string
-		for i := 0; enE.HasMoreElements() && i < n+enumSlack; i++ {
+		drive(dm, n, enE.HasMoreElements, func() {
 			if e, ok := enE.NextElement().(*hmap.IntIntEntry); ok {
 				ps = append(ps, pairS{i32Tok(e.GetKey()), i32Tok(e.GetValue())})
 				ks = append(ks, i32Tok(e.GetKey()))
 			}
-		}
-		for i := 0; enK.HasMoreElements() && i < n+enumSlack; i++ {
+		})
+		drive(dm, n, enK.HasMoreElements, func() {
 			ks2 = append(ks2, i32Tok(enK.NextInt()))
-		}
+		})
 		enE, enK = nil, nil
 		out := joinPairs(sortedPairs(&tdesc{kkind: 'i'}, ps))
 		if sortedToks(ks, true) != sortedToks(ks2, true) {
@@ -353,6 +409,7 @@ func encodePairs(ps []pairKV) []byte {
 }
 
 func newIntKeyMap(c ctor) *inst {
+	dm := new(int) // how the enumerators of this instance are driven (rotated by every dump / EO)
 	var m *hmap.IntKeyMap
 	if c.def {
 		m = hmap.NewIntKeyMapDefault()
@@ -378,6 +435,19 @@ func newIntKeyMap(c ctor) *inst {
 				return "u"
 			case "SZ":
 				return strconv.Itoa(m.Size())
+			case "TS":
+				var parts []string
+				en := m.Entries()
+				for i := 0; en.HasMoreElements() && i < m.Size()+enumSlack; i++ {
+					if e, ok := en.NextElement().(*hmap.IntKeyEntry); ok {
+						parts = append(parts, e.ToString())
+					}
+				}
+				want := "{" + strings.Join(parts, ", ") + "}"
+				if got := m.ToString(); got != want {
+					return strconv.Itoa(m.Size()) + "!ToString=" + got + " want " + want
+				}
+				return strconv.Itoa(m.Size())
 			case "PA":
 				other := hmap.NewIntKeyMap(3, 0.75)
 				for _, p := range o.pairs {
@@ -389,33 +459,34 @@ func newIntKeyMap(c ctor) *inst {
 			return "?unsupported"
 		},
 		dump: func(skip map[string]bool) dump {
+			*dm++
 			d := dump{has: map[string]bool{}}
 			n := m.Size()
 			d.size = n
 			if !skip["Entries"] {
 				d.has["Entries"] = true
 				en := m.Entries()
-				for i := 0; en.HasMoreElements() && i < n+enumSlack; i++ {
+				drive(dm, n, en.HasMoreElements, func() {
 					if e, ok := en.NextElement().(*hmap.IntKeyEntry); ok {
 						d.entries = append(d.entries, pairS{i32Tok(e.GetKey()), objVal(e.GetValue())})
 					} else {
 						d.entries = append(d.entries, pairS{"?", "?"})
 					}
-				}
+				})
 			}
 			if !skip["Keys"] {
 				d.has["Keys"] = true
 				en := m.Keys()
-				for i := 0; en.HasMoreElements() && i < n+enumSlack; i++ {
+				drive(dm, n, en.HasMoreElements, func() {
 					d.keys = append(d.keys, i32Tok(en.NextInt()))
-				}
+				})
 			}
 			if !skip["Values"] {
 				d.has["Values"] = true
 				en := m.Values()
-				for i := 0; en.HasMoreElements() && i < n+enumSlack; i++ {
+				drive(dm, n, en.HasMoreElements, func() {
 					d.values = append(d.values, objVal(en.NextElement()))
-				}
+				})
 			}
 			if !skip["KeyArray"] {
 				d.has["KeyArray"] = true
@@ -463,7 +534,7 @@ func newIntKeyMap(c ctor) *inst {
 	}
 	var enE hmap.Enumeration
 	var enK hmap.IntEnumer
-	it.openEnum = func() { enE, enK = m.Entries(), m.Keys() }
+	it.openEnum = func() { *dm++; enE, enK = m.Entries(), m.Keys() }
 	it.drainEnum = func() string {
 		if enE == nil {
 			it.openEnum()
@@ -471,15 +542,15 @@ func newIntKeyMap(c ctor) *inst {
 		n := m.Size()
 		var ps []pairS
 		var ks, ks2 []string
-		for i := 0; enE.HasMoreElements() && i < n+enumSlack; i++ {
+		drive(dm, n, enE.HasMoreElements, func() {
 			if e, ok := enE.NextElement().(*hmap.IntKeyEntry); ok {
 				ps = append(ps, pairS{i32Tok(e.GetKey()), objVal(e.GetValue())})
 				ks = append(ks, i32Tok(e.GetKey()))
 			}
-		}
-		for i := 0; enK.HasMoreElements() && i < n+enumSlack; i++ {
+		})
+		drive(dm, n, enK.HasMoreElements, func() {
 			ks2 = append(ks2, i32Tok(enK.NextInt()))
-		}
+		})
 		enE, enK = nil, nil
 		out := joinPairs(sortedPairs(&tdesc{kkind: 'i'}, ps))
 		if sortedToks(ks, true) != sortedToks(ks2, true) {
@@ -491,6 +562,7 @@ func newIntKeyMap(c ctor) *inst {
 }
 
 func newIntSet(c ctor) *inst {
+	dm := new(int) // how the enumerators of this instance are driven (rotated by every dump / EO)
 	m := hmap.NewIntSet()
 	it := &inst{
 		exec: func(o op) string {
@@ -507,6 +579,17 @@ func newIntSet(c ctor) *inst {
 				return "u"
 			case "SZ":
 				return strconv.Itoa(m.Size())
+			case "TS": // IntSet.ToString drives the enumerator with Size() bare NextInt calls
+				var parts []string
+				en := m.Values()
+				for i := 0; en.HasMoreElements() && i < m.Size()+enumSlack; i++ {
+					parts = append(parts, strconv.Itoa(int(en.NextInt())))
+				}
+				want := "{" + strings.Join(parts, ", ") + "}"
+				if got := m.ToString(); got != want {
+					return strconv.Itoa(m.Size()) + "!ToString=" + got + " want " + want
+				}
+				return strconv.Itoa(m.Size())
 			case "PA":
 				var xs []int32
 				for _, p := range o.pairs {
@@ -518,15 +601,16 @@ func newIntSet(c ctor) *inst {
 			return "?unsupported"
 		},
 		dump: func(skip map[string]bool) dump {
+			*dm++
 			d := dump{has: map[string]bool{}}
 			n := m.Size()
 			d.size = n
 			if !skip["Values"] {
 				d.has["Entries"] = true
 				en := m.Values()
-				for i := 0; en.HasMoreElements() && i < n+enumSlack; i++ {
+				drive(dm, n, en.HasMoreElements, func() {
 					d.entries = append(d.entries, pairS{i32Tok(en.NextInt()), "0"})
-				}
+				})
 			}
 			return d
 		},
@@ -543,16 +627,16 @@ func newIntSet(c ctor) *inst {
 		}
 	}
 	var en *hmap.IntSetEnumer
-	it.openEnum = func() { en = m.Values() }
+	it.openEnum = func() { *dm++; en = m.Values() }
 	it.drainEnum = func() string {
 		if en == nil {
 			it.openEnum()
 		}
 		n := m.Size()
 		var ps []pairS
-		for i := 0; en.HasMoreElements() && i < n+enumSlack; i++ {
+		drive(dm, n, en.HasMoreElements, func() {
 			ps = append(ps, pairS{i32Tok(en.NextInt()), "0"})
-		}
+		})
 		en = nil
 		return joinPairs(sortedPairs(&tdesc{kkind: 'i'}, ps))
 	}
@@ -560,6 +644,7 @@ func newIntSet(c ctor) *inst {
 }
 
 func newStringSet(c ctor) *inst {
+	dm := new(int) // how the enumerators of this instance are driven (rotated by every dump / EO)
 	m := hmap.NewStringSet()
 	it := &inst{
 		exec: func(o op) string {
@@ -584,31 +669,32 @@ func newStringSet(c ctor) *inst {
 			return "?unsupported"
 		},
 		dump: func(skip map[string]bool) dump {
+			*dm++
 			d := dump{has: map[string]bool{}}
 			n := m.Size()
 			d.size = n
 			if !skip["Keys"] {
 				d.has["Entries"] = true
 				en := m.Keys()
-				for i := 0; en.HasMoreElements() && i < n+enumSlack; i++ {
+				drive(dm, n, en.HasMoreElements, func() {
 					d.entries = append(d.entries, pairS{strTok(en.NextString()), "0"})
-				}
+				})
 			}
 			return d
 		},
 	}
 	it.raw = m
 	var en hmap.StringEnumer
-	it.openEnum = func() { en = m.Keys() }
+	it.openEnum = func() { *dm++; en = m.Keys() }
 	it.drainEnum = func() string {
 		if en == nil {
 			it.openEnum()
 		}
 		n := m.Size()
 		var ps []pairS
-		for i := 0; en.HasMoreElements() && i < n+enumSlack; i++ {
+		drive(dm, n, en.HasMoreElements, func() {
 			ps = append(ps, pairS{strTok(en.NextString()), "0"})
-		}
+		})
 		en = nil
 		return joinPairs(sortedPairs(&tdesc{kkind: 's'}, ps))
 	}
@@ -617,13 +703,13 @@ func newStringSet(c ctor) *inst {
 
 var types = []*tdesc{
 	{name: "IntIntMap", kkind: 'i', hasCtor: true,
-		ops:  []string{"P", "A", "AE", "G", "CK", "CV", "R", "C", "SZ", "IE", "IF", "SM", "SO", "TO"},
+		ops:  []string{"P", "A", "AE", "G", "CK", "CV", "R", "C", "SZ", "IE", "IF", "SM", "SO", "TO", "TS"},
 		xops: []string{"TOF", "KAW", "EOB"}, views: []string{"Entries", "Keys", "Values", "KeyArray", "ValueArray"}, mk: newIntIntMap},
 	{name: "IntKeyMap", kkind: 'i', hasCtor: true,
-		ops:  []string{"P", "G", "CK", "CV", "R", "C", "SZ", "PA"},
+		ops:  []string{"P", "G", "CK", "CV", "R", "C", "SZ", "PA", "TS"},
 		xops: []string{"PAF", "KAW", "EOB"}, views: []string{"Entries", "Keys", "Values", "KeyArray"}, mk: newIntKeyMap},
 	{name: "IntSet", kkind: 'i', isSet: true,
-		ops:  []string{"P", "CK", "R", "C", "SZ", "PA"},
+		ops:  []string{"P", "CK", "R", "C", "SZ", "PA", "TS"},
 		xops: []string{"PAW", "EOB"}, views: []string{"Values"}, mk: newIntSet},
 	{name: "StringSet", kkind: 's', isSet: true,
 		ops:  []string{"P", "U", "CK", "HK", "R", "C", "SZ"},
@@ -667,6 +753,8 @@ func (t *tdesc) method(code string) string {
 		return "Sort"
 	case "PA":
 		return "PutAll"
+	case "TS":
+		return "ToString"
 	case "TO", "TOF":
 		return "ToObject"
 	case "PAF", "PAW":
@@ -699,7 +787,7 @@ func (t *tdesc) line0(o op) string {
 		return t.line0(o2)
 	case "KAW":
 		return "KS"
-	case "EO":
+	case "EO", "TS":
 		return "SZ"
 	case "ED":
 		return "ES"
@@ -744,7 +832,7 @@ func (t *tdesc) replayLine(o op) string { return fmt.Sprintf("@%d %s", o.t, t.re
 
 func (t *tdesc) replayLine0(o op) string {
 	switch o.code {
-	case "KAW", "EO", "ED":
+	case "KAW", "EO", "ED", "TS":
 		return o.code
 	case "PAW":
 		o2 := o
@@ -1399,7 +1487,7 @@ func baseOnly(avail []string) []string {
 	return out
 }
 
-var weights = map[string]int{"PAF": 6, "TOF": 5, "PAW": 3, "KAW": 2, "EOB": 3, "P": 30, "U": 8, "A": 10, "AE": 6, "G": 8, "CK": 7, "HK": 3, "CV": 4, "R": 14, "C": 1, "SZ": 2, "IE": 1, "IF": 2, "SM": 2, "SO": 2, "PA": 3, "TO": 2}
+var weights = map[string]int{"TS": 3, "PAF": 6, "TOF": 5, "PAW": 3, "KAW": 2, "EOB": 3, "P": 30, "U": 8, "A": 10, "AE": 6, "G": 8, "CK": 7, "HK": 3, "CV": 4, "R": 14, "C": 1, "SZ": 2, "IE": 1, "IF": 2, "SM": 2, "SO": 2, "PA": 3, "TO": 2}
 
 // genOps generates a history over `nInst` live instances of the type (one key pool for all of them, so
 // that the same keys live in several containers).  Cross-object operations: PAF (PutAll from another live
